@@ -3,7 +3,7 @@
 S=$1; shift
 cd /repo && git diff --quiet || { echo "/repo not clean"; exit 2; }
 git -C /repo apply $S/patch.diff || { echo "patch does not apply"; exit 3; }
-trap 'git -C /repo checkout -- . ' EXIT
+trap 'git -C /repo checkout -- . ; (cd /verif/harness && GOFLAGS=-mod=mod GOPROXY=off go build -tags verif -o bin/ ./cmd/...)' EXIT
 cd /verif
 for p in "$@"; do
   echo "--- bin/check $p (tier ${VERIF_TIER:-quick})"
